@@ -88,6 +88,32 @@ def run(R, env):
         from engine.analysis import reachable_bodies as _rb2
         spread = [b.key for b in prog.fn_bodies(CRATE) if b.kind == "fn" and any("cw_storage_plus::Map<" in b.local_ty(i) for i in range(1, b.nargs + 1)) and any(any((call_name(t_) or "") == "cw_storage_plus::Map::range" for _, t_ in prog.bodies[k_].calls()) for k_ in _rb2(prog, [b.key]))]
         if len(spread) >= 2:
+            # what IS decided for a spread pagination: the page limit is never applied upstream of the filter
+            # (`range.take(n).filter(p)` looks at the first n entries, not the first n matching ones: a short or
+            # empty page although later entries match, so paging to the first short page misses them)
+            from engine.analysis import resolve_terms as _rt17
+            bad, nchains = [], 0
+            for k_ in sorted(set(x for sk in spread for x in _rb2(prog, [sk]) if x in prog.bodies and prog.bodies[x].crate == CRATE)):
+                cb_ = Ctx(prog.bodies[k_])
+                for bi_, t_, a_ in call_sites(cb_, lambda nm: nm.endswith(("Iterator::collect", "Iterator::count", "Iterator::last", "Iterator::next"))):
+                    term_ = _rt17(prog, cb_.T.call_term(t_, bi_), 3)
+
+                    def walk(x, filt_downstream, depth=0):
+                        if depth > 40:
+                            return
+                        if x[0] == "phi":
+                            for y in x[1]:
+                                walk(y, filt_downstream, depth + 1)
+                        elif x[0] == "call" and "Iterator::" in x[1] and x[2]:
+                            m_ = x[1].split("::")[-1]
+                            if m_ == "take" and filt_downstream:
+                                bad.append((k_, cb_.body.loc(bi_)))
+                            walk(x[2][0], filt_downstream or m_ == "filter", depth + 1)
+
+                    if any(s_[0] == "call" and s_[1] == "cw_storage_plus::Map::range" for s_ in subterms(term_)):
+                        nchains += 1
+                        walk(term_, False)
+            R.ob("C17.R1", "limit-after-filter", not bad, "an iterator pipeline over a stored map truncates with take(..) BEFORE it filters (%s): a filtered page holds the matching ones among the first n entries, not the first n matching entries" % bad[:3], loc=bad[0][1] if bad else None, fn=bad[0][0] if bad else "staking::helpers")
             R.set_undecided(["C17.R1", "C17.R2"], "pagination is spread over several generic helpers (%s); only a single range-filter-count-collect helper is modelled" % ", ".join(k.split("::")[-1] for k in spread[:4]))
     R.ob("C17.R1", "one-pagination-helper", len(pagers) == 1, "pagination helpers found: %s" % [b.key for b in pagers], fn="staking::helpers")
     for b in pagers:
